@@ -105,6 +105,19 @@ int main(int argc, char **argv) {
                        case 8: bad[7] ^= 0x20; break;                                           /* random neighbour: mostly non-square */
                        default: bad[20] ^= 0x02; break; }
           r_valid(bad); r_addsub(bad, rp); r_addsub(rp, bad); vrng_bytes(&R, s, 32); s[31] &= 0x0f; r_mul(0, s, bad); } }
+    /* results whose encoding differs from the identity's (01 00 .. 00) in a single byte: y = 1 + kk * 2^(8j). The "is the result
+     * the identity" test must look at every byte. For each byte position the first such point of the prime-order group is used as
+     * the expected result of an unclamped multiplication by 1 and of a clamped multiplication (P1 = clamp(n)^-1 * P). */
+    { int found = 0;
+      for (int j = 1; j <= 31; j += (n >= 40 ? 1 : (j < 28 ? 9 : 1))) { int done1 = 0;
+        for (int kk = 1; kk < (j == 31 ? 128 : 256) && !done1; kk++) for (int sg = 0; sg < 2 && !done1; sg++) {
+            unsigned char P[32] = { 1 }, one[32] = { 1 }, nn[32], cl[64] = { 0 }, inv[32], P1[32]; P[j] = (unsigned char) kk; P[31] |= (unsigned char) (sg << 7);
+            if (crypto_core_ed25519_is_valid_point(P) != 1) continue;
+            done1 = 1; found++;
+            ed_valid("near_identity", P); ed_mul(0, one, P);
+            vrng_bytes(&R, nn, 32); memcpy(cl, nn, 32); cl[0] &= 248; cl[31] &= 127; cl[31] |= 64;
+            crypto_core_ed25519_scalar_reduce(inv, cl); if (crypto_core_ed25519_scalar_invert(inv, inv) == 0 && crypto_scalarmult_ed25519_noclamp(P1, inv, P) == 0) ed_mul(1, nn, P1); } }
+      (void) found; }
     /* ---- scalar arithmetic: structured + random, reduced and arbitrary byte strings */
     { static const char *sc_hex[] = { "0000000000000000000000000000000000000000000000000000000000000000", "0100000000000000000000000000000000000000000000000000000000000000",
         "ecd3f55c1a631258d69cf7a2def9de1400000000000000000000000000000010", "edd3f55c1a631258d69cf7a2def9de1400000000000000000000000000000010",
